@@ -943,6 +943,9 @@ func (s *AbsfsNFS) Export(mountPath string, port int) error {
 		ReadOnly: s.policy.Load().ReadOnly,
 		Port:     port,
 		Hostname: "localhost",
+		// Standard NFS clients frame every call with RPC record marking
+		// (RFC 1831 section 10); without it they cannot talk to this server.
+		UseRecordMarking: true,
 	})
 	if err != nil {
 		return err
